@@ -17,7 +17,7 @@ STRUCT_CODES = {'b': ('int', 8), 'B': ('uint', 8), 'h': ('int', 16), 'H': ('uint
 
 
 def item_value(rng, name, n):
-    if name in ('float', 'floatle', 'bfloat', 'e4m3mxfp', 'e5m2mxfp', 'e3m2mxfp', 'e2m1mxfp', 'p4binary', 'p3binary', 'mxint'):
+    if name in ('float', 'floatle', 'bfloat', 'e4m3mxfp', 'e5m2mxfp', 'e3m2mxfp', 'e2m3mxfp', 'e2m1mxfp', 'p4binary', 'p3binary', 'mxint'):
         if rng.random() < 0.85:
             f = rng.choice([0.0, 1.0, -1.0, 0.5, 1.5, 2.0, -2.0, 3.0, 0.25, -0.0, 6.0, 1.75])
         else:
@@ -263,4 +263,46 @@ def array_memo_program(rng):
             calls.append(_d.setopt('mx', mx))
     calls.append({'op': 'adata', 't': 'b'})
     calls.append({'op': 'atolist', 't': 'b'})
+    return {'calls': calls}
+
+
+INT_DT = [('uint', 3), ('uint', 8), ('uint', 12), ('int', 5), ('int', 8), ('int', 16), ('uintbe', 16), ('intle', 16), ('uintne', 24), ('uint', 33)]
+FLOAT_DT = [('float', 16), ('float', 32), ('float', 64), ('floatle', 32), ('bfloat', 16), ('e4m3mxfp', 8), ('e5m2mxfp', 8), ('e3m2mxfp', 6),
+            ('e2m3mxfp', 6), ('e2m1mxfp', 4), ('p4binary', 8), ('p3binary', 8), ('mxint', 8)]
+
+
+def array_convert_program(rng):
+    """astype between dtypes of the same kind of value, fromfile with every n around what the file holds, and the
+    attributes of the dtypes involved"""
+    calls = []
+    for _ in range(rng.randint(2, 4)):
+        fam = INT_DT if rng.random() < 0.5 else FLOAT_DT
+        name, n = rng.choice(fam)
+        k = rng.randint(0, 5)
+        items = [item_value(rng, name, n) if fam is FLOAT_DT else rand_value_for(rng, name, n) for _ in range(k)]
+        mk = {'op': 'anew', 'rid': 'a', 'sa': [name, 'list'], 'ia': [n, rng.randint(0, 2)], 'va': items, 'drop': ['*']}
+        if rng.random() < 0.25 and n > 1:
+            mk['xs'] = [_d.lit('bin', _d.rand_bits(rng, rng.randint(1, n - 1)))]
+        calls.append(mk)
+        calls.append({'op': 'dtypeinfo', 'sa': [name], 'ia': [n, rng.randint(0, 2)]})
+        for _ in range(rng.randint(1, 3)):
+            name2, n2 = rng.choice(fam if rng.random() < 0.9 else INT_DT + FLOAT_DT)
+            calls.append({'op': 'aastype', 't': 'a', 'rid': 'b', 'sa': [name2], 'ia': [n2, rng.randint(0, 2)]})
+            if rng.random() < 0.5:
+                calls.append({'op': 'atolist', 't': 'b'})
+        # fromfile
+        nbytes = rng.choice([0, 1, 2, 3, 4, 6, 8, 9])
+        src = _d.rand_bits(rng, 8 * nbytes)
+        avail = (8 * nbytes) // n
+        want = rng.choice([NONE_I, 0, 1, avail, avail, max(0, avail - 1), avail + 1, avail + 3])
+        # (an empty real file cannot be memory mapped by Bits(f); the empty source goes through BytesIO)
+        calls.append({'op': 'afromfile', 't': 'a', 'sa': [rng.choice(['path', 'bytesio']) if nbytes else 'bytesio'], 'ia': [want],
+                      'xs': [_d.lit('bin', src)]})
+        calls.append({'op': 'atolist', 't': 'a'})
+    for _ in range(rng.randint(1, 4)):
+        name = rng.choice(['uint', 'int', 'u', 'i', 'uintbe', 'intle', 'uintne', 'intne', 'float', 'floatle', 'floatne', 'f', 'bfloat',
+                           'hex', 'h', 'oct', 'o', 'bin', 'b', 'bytes', 'bool', 'bits', 'ue', 'se', 'uie', 'sie', 'p3binary',
+                           'p4binary', 'e4m3mxfp', 'e5m2mxfp', 'e3m2mxfp', 'e2m3mxfp', 'e2m1mxfp', 'e8m0mxfp', 'mxint'])
+        n = rng.choice([NONE_I, NONE_I, 0, 1, 3, 4, 6, 8, 12, 16, 24, 32, 64, 65, -1])
+        calls.append({'op': 'dtypeinfo', 'sa': [name], 'ia': [n, rng.randint(0, 2) if n != NONE_I and n >= 0 else 0]})
     return {'calls': calls}
